@@ -1,28 +1,44 @@
-import json, os, shutil, re
-for line in open('/tmp/seed3x/list.txt'):
-    parts=line.split()
+#!/usr/bin/env python3
+"""tools/import_round.py <round-dir> <list-file> <round-number>
+Imports confirmed seeded changes of one round of seeding agents into /verif/seeded/<Cxx>-<n>/ (n continues the numbering of
+the property, counting obsolete seeds). list-file lines: <Cxx> <i> <package dir> <TestRegex> [-race]; only lines whose
+confirmation log <dir of list>/<Cxx>-<i>.log ends in CONFIRMED are imported."""
+import json, os, shutil, re, sys, glob
+rd, lst, rnd = sys.argv[1], sys.argv[2], int(sys.argv[3])
+logdir = os.path.dirname(lst)
+def next_index(pid):
+    m = 0
+    for d in glob.glob('/verif/seeded/%s-*' % pid) + glob.glob('/verif/seeded/obsolete/%s-*' % pid):
+        try: m = max(m, int(d.rsplit('-', 1)[1]))
+        except ValueError: pass
+    return m + 1
+for line in open(lst):
+    parts = line.split()
     if not parts: continue
-    pid,i,pkg,test=parts[:4]; race=len(parts)>4
-    src="/tmp/seed3/%s/out/%s"%(pid,i)
-    j=int(i)+6
-    dst="/verif/seeded/%s-%d"%(pid,j)
-    os.makedirs(dst,exist_ok=True)
-    shutil.copy(src+"/patch.diff",dst+"/patch.diff")
-    shutil.copy(src+"/demo_test.go",dst+"/demo_test.go.txt")
-    breaks="";needs=""
-    if os.path.exists(src+"/README.md"):
-        shutil.copy(src+"/README.md",dst+"/AGENT_README.md")
-        t=open(src+"/README.md").read()
-        m=re.search(r'^# (.*)$',t,re.M)
-        if m: breaks=m.group(1).strip()
-        m=re.search(r'\*\*Clause broken:?\*\*:?\s*(.*?)(?:\n\n|\Z)',t,re.S)
-        if m: breaks+=" | clause: "+" ".join(m.group(1).split())
-        m=re.search(r'\*\*What it needs to manifest:?\*\*:?\s*(.*?)(?:\n\n|\Z)',t,re.S)
-        if m: needs=" ".join(m.group(1).split())
-    meta={"property":pid,"round":3,"breaks":breaks,"needs_to_manifest":needs,
-      "demo":{"file":"demo_test.go.txt (copy as <pkgdir>/zz_demo_test.go)","package_dir":pkg,"test":test,"race":race},
-      "confirmed_by":"tools/confirm_seed.sh %s %s %s%s  -> builds, pinned baseline 160/160 passes with the change, demo FAILS with it and PASSES without it"%(dst,pkg,test," -race" if race else ""),
-      "source":"independent sub-agent (round 3) given only the property text and a scratch worktree",
-      "detected_by":[]}
-    json.dump(meta,open(dst+"/meta.json","w"),indent=1)
-    print(dst, "|", breaks[:100], "|", needs[:60])
+    pid, i, pkg, test = parts[:4]; race = len(parts) > 4
+    log = '%s/%s-%s.log' % (logdir, pid, i)
+    if not os.path.exists(log) or 'CONFIRMED' not in open(log).read().strip().split('\n')[-1]:
+        print('NOT CONFIRMED', pid, i); continue
+    src = "%s/%s/out/%s" % (rd, pid, i)
+    j = next_index(pid)
+    dst = "/verif/seeded/%s-%d" % (pid, j)
+    os.makedirs(dst, exist_ok=True)
+    shutil.copy(src + "/patch.diff", dst + "/patch.diff")
+    shutil.copy(src + "/demo_test.go", dst + "/demo_test.go.txt")
+    breaks = ""; needs = ""
+    if os.path.exists(src + "/README.md"):
+        shutil.copy(src + "/README.md", dst + "/AGENT_README.md")
+        t = open(src + "/README.md").read()
+        m = re.search(r'^# (.*)$', t, re.M)
+        if m: breaks = m.group(1).strip()
+        m = re.search(r'\*\*Clause broken:?\*\*:?\s*(.*?)(?:\n\n|\Z)', t, re.S)
+        if m: breaks += " | clause: " + " ".join(m.group(1).split())
+        m = re.search(r'\*\*What it needs to manifest:?\*\*:?\s*(.*?)(?:\n\n|\Z)', t, re.S)
+        if m: needs = " ".join(m.group(1).split())
+    meta = {"property": pid, "round": rnd, "breaks": breaks, "needs_to_manifest": needs,
+      "demo": {"file": "demo_test.go.txt (copy as <pkgdir>/zz_demo_test.go)", "package_dir": pkg, "test": test, "race": race},
+      "confirmed_by": "tools/confirm_seed.sh %s %s %s%s  -> builds, pinned baseline 160/160 passes with the change, demo FAILS with it and PASSES without it" % (dst, pkg, test, " -race" if race else ""),
+      "source": "independent sub-agent (round %d) given only the property text and a scratch worktree" % rnd,
+      "detected_by": []}
+    json.dump(meta, open(dst + "/meta.json", "w"), indent=1)
+    print(dst, "|", breaks[:110])
